@@ -7,8 +7,12 @@ QInit(t) == [PInit(t.pdoid, t.nid) EXCEPT !.pdoData = t.pdodata]
 QShow(st) == st
 Bad(st, why) == [ok |-> FALSE, why |-> why, st |-> st]
 Good(st) == [ok |-> TRUE, why |-> "", st |-> st]
+\* producers whose frames would share a CAN id (a PDO moved onto the SYNC or heartbeat id) are left out
+DistinctIds(pr) == \A a, b \in Expected(pr) : a # b => a.id # b.id
 Fin(st, e, new) ==
-    IF ~LiveOk(new, e.live)
+    IF e.overlap # 0 /\ DistinctIds(st) /\ DistinctIds(new)
+      THEN Bad(st, "a producer started a cyclic task while its previous one was still running (two tasks at that moment, after " \o e.e \o ")")
+    ELSE IF ~LiveOk(new, e.live)
       THEN Bad(st, "live cyclic tasks are not exactly one per running producer with its current id / payload / period (after " \o e.e \o ")")
       ELSE Good(new)
 StartLike(st, e, r) ==
